@@ -290,7 +290,7 @@ def configs_for(ctx, rows, mp_ok, small):
 def gen_cases(ctx, mp_ok):
     r = ctx.rng
     targets = fixed_targets()
-    n_rand = ctx.n(16, 120)
+    n_rand = ctx.n(30, 300)
     targets += [random_target(r) for _ in range(n_rand)]
     cases = []
     for ti, tgt in enumerate(targets):
@@ -303,7 +303,7 @@ def gen_cases(ctx, mp_ok):
             radius = float(round(ps * r.choice([0.7, 1.3, 2.2, 4.0]) if r.random() < 0.8 else r.choice([3.0e5, 1.0e6, 1.6e6, 2.5e6])))
         radius = max(radius, 1000.0)
         n = r.randint(20, 120) if ctx.tier == "quick" else r.randint(20, 400)
-        mp_case = (ti % 5 == 0) if ctx.thorough else ti in (0, 6, 12, 19)      # cases also run with nprocs=2
+        mp_case = (ti % 4 == 0) if ctx.thorough else ti in (0, 6, 12, 19)      # cases also run with nprocs=2
         if mp_case:
             n = min(n, 60)
         malformed = (ti % 7 == 3)
@@ -426,10 +426,14 @@ def check_case(ctx, case, obs, report):
         return facts
     runs = obs["runs"]
     T = obs["T"]
+    if runs[0].get("skipped"):
+        return facts
     refs = {}                      # reduce flag -> (run, infos, canon, fresh)
     thin_cls = case["tag"] == "thin"
     for run in runs:
         cfg = run["cfg"]
+        if run.get("skipped"):
+            continue
         facts["runs"] += 1
         name = cfg_name(cfg)
         infos = {"info1": info_arrays(run["info1"]), "infok": info_arrays(run["infok"])}
@@ -721,7 +725,7 @@ def diagnose_snapshot(red, radius, lon, lat, code):
                 keys.append("side_assumption.dateline_extremes")
             else:
                 keys.append("side_assumption.dateline_branch_without_crossing")
-    return "+".join(keys) if keys else "not_rejected_by_model"
+    return keys if keys else ["not_rejected_by_model"]
 
 
 def shard(l, n):
@@ -732,7 +736,7 @@ def run_impl_sharded(ctx, cases, per=6, workers=8, timeout=1700):
     from concurrent.futures import ThreadPoolExecutor
     chunks = shard(cases, per)
     with ThreadPoolExecutor(max_workers=workers) as ex:
-        futs = [ex.submit(ctx.impl, "c03", {"cases": ch}, timeout) for ch in chunks]
+        futs = [ex.submit(ctx.impl, "c03", {"cases": ch, "limit": 60 if ctx.tier == "quick" else 120}, timeout) for ch in chunks]
         res = []
         for f in futs:
             res += f.result()["cases"]
@@ -865,10 +869,11 @@ def analyse(ctx, cases, obs_list):
             by_key = {}
             for p, c in zip(lost, codes):
                 if variant == "legacy":
-                    comp = diagnose_snapshot(red, case["radius"], float(plon[p]), float(plat[p]), c)
+                    comps = diagnose_snapshot(red, case["radius"], float(plon[p]), float(plat[p]), c)
                 else:
-                    comp = "repaired." + COMPONENT.get(c, "?")
-                by_key.setdefault(comp, []).append(p)
+                    comps = ["repaired." + COMPONENT.get(c, "?")]
+                for comp in comps:          # a point rejected by both windows counts for both causes
+                    by_key.setdefault(comp, []).append(p)
             for comp, ps in sorted(by_key.items()):
                 p = ps[0]
                 detail = " [%s skeleton, winding class %d, lon mode %d: %d lost %s point(s) of this kind, e.g. index %d at (lon %.6f, lat %.6f)]" % (
@@ -906,13 +911,21 @@ def replay_payload(case, extra):
 def run(ctx):
     ctx.rule = ("geometry pool: one fixed representative per input class of the property text (mid/high latitude, off the central "
                 "meridian, boundary longitude exactly 0.0, near a pole, over a pole, across the dateline, rotated and flipped grids, "
-                "geos disk with off-earth corners, one-pixel-thick targets) plus PRNG-generated targets of the same families; sources "
-                "= a cloud around the target in the projected plane plus boundary seekers at 0.3..1.01 x radius from border pixels in "
-                "random bearings, a malformed stream (lon 181, lat 90.5, NaN, 1e30) in every 7th case, every 6th case reversed "
-                "(grid -> swath, reduction of the targets); per case every reduce_data x segments {1,2,3,rows,rows+3,None} "
-                "(x nprocs 2 in the thorough tier) x nn/gauss/custom(with_uncert) x 2 datasets (int / multi-channel / masked). "
-                "One evaluation = one configuration of one case; non-trivial = the plain call finds at least one neighbour and the "
-                "configuration differs from the plain call; distinct = distinct (geometry, radius, k, configuration)")
+                "geos disk with off-earth corners, one-pixel-thick targets, the witnesses of C03_snapshot_reduce_refuted) plus "
+                "PRNG-generated targets of the same families; sources = a cloud around the target in the projected plane plus boundary "
+                "seekers (0.3..1.01 x radius from border pixels in random / meridional bearings, and the point of largest longitude "
+                "difference at 0.99..0.99995 x radius), a malformed stream (lon 181, lat 90.5, NaN, 1e30) in every 7th case, every 6th "
+                "case reversed (grid -> swath: reduction of the targets); per case every reduce_data x segments "
+                "{1,2,3,rows,rows+3,None} (+ nprocs=2 on a subset) x nn/gauss/custom(with_uncert) x 2 datasets (int / multi-channel / "
+                "masked, fill value or masked output). One evaluation = one configuration of one case; non-trivial = the plain call "
+                "finds at least one neighbour and the configuration differs from the plain call; distinct = distinct (geometry, "
+                "radius, k, configuration). Differences that consist only in WHICH of several exactly equidistant sources the "
+                "kd-tree returned are counted as ties, not failures (the tree is an oracle)")
+    ctx.notes.append("kd-tree engines (pykdtree for nprocs=1, scipy cKDTree for nprocs>1) are oracles: per-target answer assumed to be a "
+                     "function of the candidate set (Model/Organise.knn breaks ties by index; the engines break exact ties differently, "
+                     "such differences are tolerated and counted)")
+    ctx.notes.append("H_red (the reduction mask keeps every source within the radius of a target) is a hypothesis of C03_reduce_sound_if; "
+                     "it is refuted for the current data_reduce._get_valid_index (C03_snapshot_reduce_refuted) - known findings C03.H_red.*")
     mp_ok = mp_available(ctx)
     if not mp_ok:
         ctx.notes.append("multiprocessing unavailable in this sandbox run: nprocs=2 configurations skipped")
